@@ -975,6 +975,20 @@ def p_C17(ctx):
                     yield c2
     ctx.replay(rend(latc), "lattice", "Trace_C17")
     ctx.replay(rend(rnd(ctx, 40, 2000, None, aux=True)), "random", "Trace_C17")
+    # DHW supply mixes of MC_C15 (the additional indicator of the report: a fraction that is exactly 0, exactly 1,
+    # in between, or an error shown as a dash)
+    st15 = ctx.mc("MC_C15", "MC_C15_quick.cfg" if ctx.quick else "MC_C15_thorough.cfg", timeout=3000)
+    def mixes(cs):
+        for c in cs:
+            c = dict(c)
+            c.update({"fac": {"mode": "loc", "loc": "PENINSULA", "red1": [500, 500, 100]}, "kexp": [0, 1], "area": [5, 2], "lm": False,
+                      "render": True, "runs": [{"tag": "r1"}]})
+            yield c
+    fixed = [{"src": {"text": "1, CONSUMO, ACS, GASNATURAL, 100, 100\nDEMANDA, ACS, 90, 90"}},                      # exactly 0 %
+             {"src": {"text": "1, CONSUMO, ACS, TERMOSOLAR, 30, 30\nDEMANDA, ACS, 30, 30"}},                      # exactly 100 %
+             {"src": {"text": "1, CONSUMO, ACS, GASNATURAL, 100, 100"}}]                                          # no demand: a dash
+    import itertools
+    ctx.replay(mixes(itertools.chain(fixed, stride(vlib.mc_cases(st15), 997 if ctx.quick else 97, ctx.seed % 997 if ctx.quick else 0))), "dhw-mixes", "Trace_C17")
     # --- shipped files: library renderings (r1, r2) followed by the documents the real program writes for the same input
     d = os.path.join(WORK, "run", ctx.pid)
     files = shipped_files()
@@ -1158,7 +1172,23 @@ def p_C15(ctx):
         for c in cs:
             c.update({"fac": {"mode": "loc", "loc": "PENINSULA", "red1": [500, 500, 100]}, "kexp": [0, 1], "area": [1, 1], "lm": False, "runs": runs})
             yield c
-    ctx.replay(cfg(stride(vlib.mc_cases(st), 29 if ctx.quick else 1, ctx.seed % 29 if ctx.quick else 0)), "mixes", "Trace_C15")
+    def select(cs):
+        # quick tier: one mix in 29, but one in 5 of the mixes that have a rare dimension (idle DHW electricity line,
+        # tagged heat pump of another service, two-fuel cogenerator) - they are few and would otherwise be skipped
+        k = r = 0
+        for c in cs:
+            rare = c.pop("rare", False)
+            if not ctx.quick:
+                yield c
+            elif rare:
+                r += 1
+                if r % 5 == ctx.seed % 5:
+                    yield c
+            else:
+                k += 1
+                if k % 29 == ctx.seed % 29:
+                    yield c
+    ctx.replay(cfg(select(vlib.mc_cases(st))), "mixes", "Trace_C15")
     ctx.samples += ctx.sample_from_trace(ctx.last_trace, 2, fields=("case", "tag", "comps"))
     ctx.extra["mixes"] = ctx.ncases
     ctx.replay(file_cases(runs, locs=("PENINSULA", "CANARIAS")), "files", "Trace_C15")
